@@ -236,8 +236,16 @@ func mixedTierGets(cfg StackCfg, id string) []Scenario {
 	keys := [][]byte{[]byte("a"), []byte("b"), []byte("c")}
 	perms := [][3]int{{0, 1, 2}, {0, 2, 1}, {1, 0, 2}, {1, 2, 0}, {2, 0, 1}, {2, 1, 0}}
 	opq := uint32(100)
+	var out []Scenario
+	setup := append([]Step{}, sc.Steps...)
 	for pi, pm := range perms {
-		for _, conn := range []string{"m", "t", "B"} {
+		for ci, conn := range []string{"m", "t", "B"} {
+			if cfg.L1 == "chunked" && (pi > 0 || ci > 0) {
+				// the chunking handler reads the clock: a scenario must fit into one second, so
+				// on these stacks every (order, connection) pair is a scenario of its own
+				out = append(out, sc)
+				sc = Scenario{ID: fmt.Sprintf("%s-%d%s", id, pi, conn), Stack: cfg, Conns: sc.Conns, Steps: append([]Step{}, setup...)}
+			}
 			sc.Steps = append(sc.Steps, Step{Kind: "evict", Tier: "L1", Key: lose})
 			c := Command{Kind: "get"}
 			for i, ki := range pm {
@@ -258,7 +266,7 @@ func mixedTierGets(cfg StackCfg, id string) []Scenario {
 			sc.Steps = append(sc.Steps, Step{Kind: "feed", Conn: conn, Cmd: c, Prompt: true})
 		}
 	}
-	return []Scenario{sc}
+	return append(out, sc)
 }
 
 // hotKeyWrites: every mutating command on a key that BOTH tiers hold (and on one only L2 holds),
